@@ -164,8 +164,10 @@ func c07Races(r *ev.Rec) {
 					}
 				case classified:
 					cur = "start-command"
+				case strings.HasPrefix(label, "get Node/") || strings.HasPrefix(label, "patch Node/") || strings.HasPrefix(label, "get NodeClaim/") || strings.HasPrefix(label, "status-patch NodeClaim/"):
+					cur = "before-candidates" // the taint / condition clean-up at the start of the reconcile
 				default:
-					cur = "before-candidates"
+					cur = "unattributed" // some other call from a worker goroutine: never flagged
 				}
 				inner(label)
 			}
